@@ -35,9 +35,14 @@ def gen_fresh_ops(rng, n):
             ops.append(['sent', b, cs, w, rng.choice((None, True, False)), rng.random() < 0.3])
         elif r < 0.8:
             ops.append(['access', b, rng.randrange(4), rng.randrange(6)])
-        else:
+        elif r < 0.9:
             ops.append([rng.choice(('copy', 'fork')), b])
             nb += 1
+        elif r < 0.95:
+            ops.append(['new', b])
+            nb += 1
+        else:
+            ops.append([rng.choice(('extend', 'iadd')), b, rng.randrange(1, 4)])
     return ops
 
 def sentence_with(cs, quantified=False):
@@ -106,6 +111,19 @@ def execute_fresh(ops, log=None):
             branches.append(b.copy())
         elif op[0] == 'fork':
             branches.append(b.copy(parent=b))
+        elif op[0] == 'new':
+            branches.append(Branch())
+        elif op[0] in ('extend', 'iadd'):
+            # bulk extension from another Branch object (op[2] steps further in the list); a
+            # refusal (e.g. a node both branches share) is the caller's problem, freshness is not
+            other = branches[(op[1] + op[2]) % len(branches)]
+            try:
+                if op[0] == 'extend':
+                    b.extend(other)
+                else:
+                    b += other
+            except Exception:
+                pass
         if log is not None:
             log.append((step, op[0], len(branches)))
         for i, br in enumerate(branches):
